@@ -3,6 +3,7 @@ package provider
 import (
 	"bufio"
 	"fmt"
+	"io"
 
 	"github.com/pkg/errors"
 	"github.com/yandex/pandora/core"
@@ -49,7 +50,12 @@ var _ AmmoDecoder = &ScanAmmoDecoder{}
 func (d *ScanAmmoDecoder) Decode(ammo core.Ammo) error {
 	for {
 		if !d.scanner.Scan() {
-			return d.scanner.Err()
+			if err := d.scanner.Err(); err != nil {
+				return err
+			}
+			// the scanner reports the end of its input with a nil error: without io.EOF the caller
+			// (DecodeProvider.Run) would take every further call for one more decoded ammo
+			return io.EOF
 		}
 		chunk := d.scanner.Bytes()
 		err := d.decoder.DecodeChunk(chunk, ammo)
